@@ -182,6 +182,22 @@ def _algebra(spec, ctx):
                 ctx.close('T3', z, d, 1e-12, m, scale=max(1.0, abs(z), abs(d), abs(x), 500.0), x=x)
             else:
                 ctx.close('T3', z / d, 1.0, 1e-12, m, x=x)
+    # batches: an ndarray argument converts element-wise and is left untouched; converting it twice gives
+    # the same answer (no in-place rescaling of the caller's array)
+    if len(us) >= 2:
+        import numpy as np
+        u, v = us[0], us[1]
+        arr = np.array([float(x) for x in nums] + [1.0, 2.5])
+        keep = arr.copy()
+        m = {'type': t, 'u': u, 'v': v, 'what': 'ndarray'}
+        y1 = _conv(ctx, 'T2', m, arr, u, v)
+        y2 = _conv(ctx, 'T2', m, arr, u, v)
+        if y1 is not core.NOVALUE and y2 is not core.NOVALUE:
+            want = [float(_conv(ctx, 'T2', m, float(x), u, v)) for x in keep]
+            sc = max(1.0, max(abs(w) for w in want)) if t == 'temp' else None
+            ctx.close('T2', np.asarray(y1, float), want, 1e-12, dict(m, call='first'), scale=sc)
+            ctx.close('T2', np.asarray(y2, float), want, 1e-12, dict(m, call='second'), scale=sc)
+            ctx.check('T2', np.array_equal(arr, keep), dict(m, what2='argument_modified'))
     # temperature default (no number) must behave as documented: offset of zero
     if t == 'temp':
         for u, v in itertools.permutations(us, 2):
@@ -283,9 +299,15 @@ def _const(spec, ctx):
                 continue
             want = U.H / U.SI['energy'][k.split(' ')[0]]
             ctx.close('T6', v / want, 1.0, TOL_CODATA, m, got=v, want=want)
-            hb = ctx.call('T6', dict(m, what='bar'), c.h, k, bar=True)
-            if hb is not core.NOVALUE:
-                ctx.close('T6', hb * 2 * math.pi / v, 1.0, 1e-12, dict(m, what='bar'))
+            import numpy as np
+            for flag, fname in ((True, 'True'), (1, '1'), (np.bool_(True), 'np.bool_')):
+                hb = ctx.call('T6', dict(m, what='bar', flag=fname), c.h, k, bar=flag)
+                if hb is not core.NOVALUE:
+                    ctx.close('T6', hb * 2 * math.pi / v, 1.0, 1e-12, dict(m, what='bar', flag=fname))
+            for flag, fname in ((False, 'False'), (0, '0'), (np.bool_(False), 'np.bool_False')):
+                h0 = ctx.call('T6', dict(m, what='nobar', flag=fname), c.h, k, bar=flag)
+                if h0 is not core.NOVALUE:
+                    ctx.close('T6', h0 / v, 1.0, 1e-15, dict(m, what='nobar', flag=fname))
             if hj is not core.NOVALUE:
                 w = ctx.call('T6', m, c.convert_unit, num=hj, initial='J', final=k.split(' ')[0])
                 if w is not core.NOVALUE:
